@@ -15,8 +15,7 @@ Definition code_of (l : lstate) : list instr :=
   match l with
   | LRun c => c
   | LDrain f t _ _ rest => IDrain f t :: rest
-  | LOnly j b _ rest => IOnly j b :: rest
-  | LJoin b rest => IOnly true b :: rest
+  | LOnly b _ rest => IOnly b :: rest
   | LExit _ => []
   end.
 
@@ -37,8 +36,8 @@ Proof.
   - destruct br; simpl; [apply suffix_nil|]. eapply suffix_tail; eauto.
 Qed.
 
-Lemma only_cont_suffix j b rest r prog :
-  is_suffix (IOnly j b :: rest) prog -> is_suffix (code_of (only_cont j b rest r)) prog.
+Lemma only_cont_suffix b rest r prog :
+  is_suffix (IOnly b :: rest) prog -> is_suffix (code_of (only_cont b rest r)) prog.
 Proof.
   intros H. unfold only_cont. destruct r as [| |c x|]; simpl; auto.
   - destruct (band_eqb c b); simpl; auto.
@@ -47,7 +46,7 @@ Qed.
 
 Lemma cont_suffix prog l r : is_suffix (code_of l) prog -> is_suffix (code_of (cont l r)) prog.
 Proof.
-  intros H. destruct l as [[|i rest]|f t pend br rest|j b pend rest|b rest|e]; simpl in *; auto.
+  intros H. destruct l as [[|i rest]|f t pend br rest|b pend rest|e]; simpl in *; auto.
   - destruct i; simpl; auto.
     + destruct r; simpl; try (solve [eapply suffix_tail; eauto]). apply suffix_nil.
     + eapply suffix_tail; eauto.
@@ -57,9 +56,8 @@ Proof.
     + destruct r; simpl; auto.
     + apply drain_cont_suffix; exact H.
   - destruct pend as [x|].
-    + destruct r; simpl; auto. destruct j; simpl; auto. apply suffix_nil.
+    + destruct r; simpl; auto. apply suffix_nil.
     + apply only_cont_suffix; exact H.
-  - destruct r; simpl; auto. apply suffix_nil.
 Qed.
 
 Lemma existsb_suffix (f : instr -> bool) c prog :
@@ -68,7 +66,7 @@ Proof. intros [pre ->] H. rewrite existsb_app, H. apply orb_true_r. Qed.
 
 Lemma want_send_in l b x : want l = WSend b x -> existsb (sends_on b) (code_of l) = true.
 Proof.
-  destruct l as [[|i rest]|f t pend br rest|j c pend rest|c rest|e]; simpl; try discriminate.
+  destruct l as [[|i rest]|f t pend br rest|c pend rest|e]; simpl; try discriminate.
   - destruct i; try discriminate. intros H; inversion H; subst. simpl.
     rewrite band_eqb_refl. reflexivity.
   - intros _. reflexivity.
@@ -78,12 +76,11 @@ Qed.
 
 Lemma want_recv1_in l b : want l = WRecv (Only b) -> existsb (recv1_on b) (code_of l) = true.
 Proof.
-  destruct l as [[|i rest]|f t pend br rest|j c pend rest|c rest|e]; simpl; try discriminate.
+  destruct l as [[|i rest]|f t pend br rest|c pend rest|e]; simpl; try discriminate.
   - destruct i; try discriminate. intros H; inversion H; subst. simpl.
     rewrite band_eqb_refl. reflexivity.
   - destruct pend as [[? ?]|]; discriminate.
   - destruct pend; discriminate.
-  - intros H; inversion H; subst. rewrite band_eqb_refl. reflexivity.
 Qed.
 
 Lemma reachable_suffix p capB s : preachable p capB s ->
@@ -165,59 +162,31 @@ Qed.
 Lemma prun_reachable p capB sch s : prun p capB sch = Some s -> preachable p capB s.
 Proof. intros E. unfold prun in E. eapply run_sched_reachable; [|exact E]. apply reach_init. Qed.
 
-(* ---- band filters (only-values / only-bytes) ---- *)
-Lemma plain_no_recv1_on b l : forallb plain_instr l = true -> existsb (recv1_on b) l = false.
+(* ---- no single-band reads: no stage ever stops a pipeline from moving ---- *)
+Lemma no_recv1_on b l : forallb no_recv1_instr l = true -> existsb (recv1_on b) l = false.
 Proof.
   induction l as [|i l IH]; simpl; auto. intros H. apply andb_true_iff in H as [H1 H2].
-  rewrite (IH H2), orb_false_r. destruct i as [| | | |[|] c]; simpl in *; auto; discriminate.
+  rewrite (IH H2), orb_false_r. destruct i; simpl in *; auto; discriminate.
 Qed.
 
-Lemma plain_no_cross_band p : plain p = true -> no_cross_band p = true.
+Lemma no_recv1_no_cross_band p : no_recv1 p = true -> no_cross_band p = true.
 Proof.
-  intros H. unfold plain in H. rewrite forallb_forall in H.
+  intros H. unfold no_recv1 in H. rewrite forallb_forall in H.
   unfold no_cross_band. apply forallb_forall. intros k Hk. apply in_seq in Hk.
   unfold safe_pair. apply forallb_forall. intros b _.
-  assert (forallb plain_instr (nth (S k) p []) = true) as Hp.
+  assert (forallb no_recv1_instr (nth (S k) p []) = true) as Hp.
   { apply H. apply nth_In. lia. }
-  rewrite (plain_no_recv1_on b _ Hp). reflexivity.
+  rewrite (no_recv1_on b _ Hp). reflexivity.
 Qed.
 
-(* pipelines without single-band reads and without joining filters never hang *)
-Theorem early_exit_never_hangs_partial p capB s :
-  plain p = true -> 1 <= capB -> preachable p capB s -> ~ pdone p s ->
+(* producers, filters (each), band filters (only-values / only-bytes), throwers,
+   stages that leave at once: whatever exits early, nobody hangs *)
+Theorem early_exit_never_hangs p capB s :
+  no_recv1 p = true -> 1 <= capB -> preachable p capB s -> ~ pdone p s ->
   can_move lstate want cont (length p) (caps capB) s.
-Proof. intros H. apply dsl_progress. apply plain_no_cross_band; exact H. Qed.
+Proof. intros H. apply dsl_progress. apply no_recv1_no_cross_band; exact H. Qed.
 
-(* `range 1000 | only-values | nop` at HEAD: the last stage exits at once, the
-   filter is told "reader gone" and then waits for the end of the byte band, the
-   producer stays blocked on the full value channel *)
-Definition p_filter_hang : pipeline :=
-  [repeat (ISend V 0%N) (S (S capV)); [IOnly true V]; []].
-
-Definition sched_filter_hang : list (nat * bool) :=
-  [(2, true); (0, true); (1, true); (1, false)] ++ repeat (0, true) capV.
-
-Lemma filter_hang_run :
-  match prun p_filter_hang 1 sched_filter_hang with
-  | Some s => stuckb lstate want cont (length p_filter_hang) (caps 1) s
-              && negb (all_doneb lstate (length p_filter_hang) s)
-  | None => false
-  end = true.
-Proof. vm_compute. reflexivity. Qed.
-
-Lemma filter_hang_shape :
-  no_recv1 p_filter_hang = true /\
-  match prun p_filter_hang 1 sched_filter_hang with
-  | Some s => match fin (stg s 2) with Some None => true | _ => false end
-  | None => false
-  end = true.
-Proof. split; vm_compute; reflexivity. Qed.
-
-Theorem early_exit_never_hangs_refuted :
-  exists p capB s, 1 <= capB /\ no_recv1 p = true /\ preachable p capB s /\ ~ pdone p s /\
-                   ~ can_move lstate want cont (length p) (caps capB) s.
-Proof.
-  exists p_filter_hang, 1.
-  destruct (stuck_run_witness p_filter_hang 1 sched_filter_hang filter_hang_run) as [s H].
-  exists s. split; [apply le_n|]. split; [apply filter_hang_shape|exact H].
-Qed.
+(* the pipeline that hung before /repo f37fd5c (`range 1000 | only-values | nop`)
+   now runs to completion under the schedule that used to block it and under the
+   automatic ones *)
+Definition p_filter : pipeline := [repeat (ISend V 0%N) (S (S capV)); [IOnly V]; []].
